@@ -5,6 +5,7 @@ import (
 	"compress/gzip"
 	"fmt"
 	"os"
+	"syscall"
 )
 
 // FileCfg is a storage configuration for a File function.
@@ -87,6 +88,53 @@ func (d *Disk) Materialise(cfg *FileCfg, content []byte) (string, func()) {
 		must(os.WriteFile(name, z, 0o644))
 		cfg.Name = name
 		return name, func() { os.Remove(name) }
+	case "fifo":
+		// a named pipe: delivers the bytes, but reports size 0 and cannot be seeked
+		name := base
+		os.Remove(name)
+		must(syscall.Mkfifo(name, 0o644))
+		done := make(chan struct{})
+		go func() {
+			defer close(done)
+			w, err := os.OpenFile(name, os.O_WRONLY, 0) // blocks until a reader opens the pipe
+			if err != nil {
+				return
+			}
+			w.Write(content) // EPIPE if the reader goes away early: fine
+			w.Close()
+		}()
+		cfg.Name = name
+		return name, func() {
+			// release the writer if nobody ever opened the pipe for reading
+			if r, err := os.OpenFile(name, os.O_RDONLY|syscall.O_NONBLOCK, 0); err == nil {
+				<-done
+				r.Close()
+			} else {
+				<-done
+			}
+			os.Remove(name)
+		}
+	case "emfile":
+		// the file exists and is readable, but the process has no descriptor left
+		must(os.WriteFile(base, content, 0o644))
+		var held []*os.File
+		for {
+			f, err := os.Open(os.DevNull)
+			if err != nil {
+				break
+			}
+			held = append(held, f)
+			if len(held) > 100000 {
+				panic("sim.Disk: descriptor limit not in force")
+			}
+		}
+		cfg.Name = base
+		return base, func() {
+			for _, f := range held {
+				f.Close()
+			}
+			os.Remove(base)
+		}
 	case "dir":
 		name := base
 		os.RemoveAll(name)
